@@ -1209,6 +1209,13 @@ M('C18', 'checkpoint measurements connected below the checkpoint save (round-4 s
   "            self.engine.checkpoint.connect(make_simulation_measurements)\n", "            self.engine.checkpoint.connect(make_simulation_measurements, priority=-200)\n",
   'RESUME-checkpoint-priority')
 
+M('C19', 'mps2lat_values_masked: rows for negative indices rounded down (round-4 seed b)', LAT,
+  "shape[0] += (abs(min_i) - 1) * self.N_rings // self.N_sites + 1", "shape[0] += abs(min_i) * self.N_rings // self.N_sites",
+  'GEOM-size-rounding')
+M('C19', 'mps2lat_values_masked: ceiling written with double negation (equivalent)', LAT,
+  "shape[0] += (abs(min_i) - 1) * self.N_rings // self.N_sites + 1", "shape[0] += -(-abs(min_i) * self.N_rings // self.N_sites)",
+  None, expect='silent')
+
 # ---------------------------------------------------------------- C16 / C19
 M('C16', 'GMRES restart: relative residual norm used for normalisation (round-3 seed b)', KRY,
   """        self.total_error.append([npc.norm(self.rs[-1]) / self.b_norm])
